@@ -91,6 +91,7 @@ class Grant(Item):
             "authorization_request": AuthorizationRequest,
             "claims": {},
             "extra": {},
+            "id": "",
             "issued_token": [SessionToken],
             "resources": [],
             "scope": [],
@@ -123,6 +124,7 @@ class Grant(Item):
         extra: Optional[Dict[str, str]] = None,
         remember_token: Optional[Callable] = None,
         remove_inactive_token: Optional[bool] = False,
+        id: Optional[str] = "",
     ):
         Item.__init__(
             self,
@@ -139,7 +141,7 @@ class Grant(Item):
         self.claims = claims or {}  # default is to not release any user information
         self.resources = resources or []
         self.issued_token = issued_token or []
-        self.id = uuid1().hex
+        self.id = id or uuid1().hex
         self.sub = sub
         self.extra = extra or {}
         self.remember_token = remember_token
